@@ -8,9 +8,11 @@ import lib
 from props import fsobs
 
 ID = 'C20'
-GEN_FILES = ['T_files_p8', 'T_p8scii']
+GEN_FILES = ['T_files_p8', 'T_p8scii',
+             # the composition with the .p8 reader (Properties/C20Bytes.v) stands on the C03 / C06 models
+             'K_p8file', 'K_gfx', 'K_gff', 'K_map', 'K_sfx', 'K_music', 'T_lexer']
 COQ_PROPERTY = 'theories/Properties/C20.vo'
-COQ_EXTRA = []
+COQ_EXTRA = ['theories/Properties/C20Bytes.vo']
 MODEL = ('ExC20', 'c20_main.ml')
 MONITOR = ('MonC20', 'c20_mon_main.ml')
 RULE = ('four streams. re: every string of <= 5 (thorough: 6) tokens over {" ", "\\t", "#include", "a", ".", ".p8", '
@@ -41,7 +43,13 @@ CLAIM = dict(
           "C20_in_place_unterminated_last (the same for a cart whose last line has no newline); C20_model_holds "
           "(the monitor's predicate holds of the model). C20_glue_variant_refuted: with `yield line` (the code "
           "before the fix) the statement is false (vm_compute witness x=1 / a=bc=d); C20_tab_variant_refuted: so it is when "
-          "tabs are selected on the lexer's chunks (a -->8 line inside a long string). Tie: regex sources + the way "
+          "tabs are selected on the lexer's chunks (a -->8 line inside a long string). Composition with the .p8 reader "
+          "(Properties/C20Bytes.v): C20_p8_reader_bytes (what from_file(do_includes=False).lua.to_lines() returns for the "
+          "BYTES of a .p8 file - model reader of C03 + lexer/echo model of C06 - is the echo of the lexed lines of the "
+          "file's __lua__ section, p8_code_lines, computed by the section splitter alone), C20_p8_code_echo (so its text "
+          "repeats those lines in the sense of holds_C06), C20_expand_p8_bytes (an `#include NAME.p8[:n]` line expands to "
+          "the selected text lines of that function of the bytes), C20_in_place_p8_bytes (C20_in_place with the "
+          "directory content given as bytes for .lua and .p8 files). Tie: regex sources + the way "
           "they are applied, the shape of the two yield sites, of the lines offered to lines_for_tab and of the containment tests are regenerated and "
           "pinned; match_include_line vs re on every string of <= 5 (6) tokens + mutations; lines_for_tab, file "
           "iteration, process_includes on real directory trees vs the extracted model; the Spec-only monitor on "
@@ -59,7 +67,9 @@ CLAIM = dict(
 ASSUMPTIONS = ['lines of the including cart reach process_includes newline-terminated (the .p8 reader guarantees it)',
                'C20_in_place assumes fs_agrees: named text files are read as their bytes and a named cart\'s reader returns the '
                'cart\'s code (chunked in any way)']
-PARTIAL = ('what the cart readers return for a .p8 / .p8.png file is taken from the implementation (other properties)')
+PARTIAL = ('for a .p8 target the reader result is the C03/C06 model reader applied to the file\'s bytes (Properties/C20Bytes.v; its '
+           'tie to the implementation is the correspondence of C03 and C06, not re-run here; the byte-for-byte echo clause asks '
+           'that the code lines end in LF and are bytes); what the .p8.png reader returns is taken from the implementation (C04/C05)')
 CASE_TIMEOUT = 120
 
 SB = {'root': None, 'view': None, 'content': None, 'view_ok': None}
